@@ -105,7 +105,7 @@ def run(ctx):
         if rp.get("layout"):
             lays = [l for l in layouts(ctx, shim) + layouts(type("T", (), {"quick": False, "seed": ctx.seed})(), shim) if l[0] == rp["layout"]][:1]
     else:
-        for i in range(ctx.n(70, 1500)):
+        for i in range(ctx.n(70, 400)):
             progs.append(E.gen_prog_ext(ctx.rng, na_max=5, nops_max=8) if ctx.rng.random() < 0.75 else E.gen_prog(ctx.rng, na_max=5, nops_max=10))
     enc = [E.encode(p) for p in progs]
     ctx.cov["rule"] = ("generated S4U programs (2-5 actors: mutex/semaphore/condvar/barrier/mailbox patterns, dyadic sleeps = coinciding dates, execs, "
